@@ -151,12 +151,19 @@ def run_history(kind, rng, nmut, out):
             return classify(e)
 
     tag = 0
+    offered = {}
     for _ in range(nmut):
         r = rng.random()
         u = pick(rng, uids)
         if r < 0.4:
             tag += 1
-            p, bad = gen_policy(rng, u, tag)
+            if u in offered and rng.random() < 0.2:
+                # the very object that was handed to add / update before (a retried call), not merely an equal one
+                p, bad = offered[u]
+                out.count('same-object-offered-again')
+            else:
+                p, bad = gen_policy(rng, u, tag)
+            offered[u] = (p, bad)
             ok = not (bad and rejects)
             ops.append('add %s %d %s' % (tok(u), pid_of(p), 'T' if ok else 'F'))
             outs.append(do('add', p))
@@ -164,6 +171,7 @@ def run_history(kind, rng, nmut, out):
         elif r < 0.7:
             tag += 1
             p, bad = gen_policy(rng, u, tag)
+            offered[u] = (p, bad)
             ok = not (bad and rejects)
             ops.append('upd %s %d %s' % (tok(u), pid_of(p), 'T' if ok else 'F'))
             outs.append(do('upd', p))
@@ -291,6 +299,7 @@ def run(ctx):
         if len(out.samples) < 4 and ('exists' in outs or 'rejected' in outs):
             out.samples.append({'backend': desc['backend'], 'history': desc['history'][:8], 'impl_outputs': outs[:14]})
     _large_collections(ctx, out, rng)
+    _sql_statement_faults(ctx, out, rng)
     out.rule = ('for each of %d backends/wrappers: histories of 3-%d mutations over uids %r and generated policies (string-'
                 'based, rule-based with context, empty, and ones SQL/Mongo cannot convert because a later field is '
                 'malformed), plus limit/offset/batch edge reads; after EVERY mutation the whole store is read back by get '
@@ -344,6 +353,93 @@ def _concrete_model(out, line, bl, m, outs, desc):
 
 def _split_ops(ops):
     return list(ops)
+
+
+def _sql_statement_faults(ctx, out, rng):
+    """the k-th SQL statement sent by a mutation fails, for every k of every kind of mutation, directly and through the
+    wrappers: the mutation raises, and the storage's own later reads - before and after another, successful mutation -
+    show the stored set exactly as it was"""
+    import sqlite3
+    from sqlalchemy import event
+    from vakt.policy import Policy
+    for kind in ('sqlite', 'observable:sqlite', 'enfold:sqlite'):
+        for op in ('add', 'update', 'delete'):
+            total, k = None, 0
+            while total is None or k < total:
+                k += 1
+                st = stores.make(kind)
+                base = st
+                while not hasattr(base, '_engine'):
+                    base = getattr(base, 'storage', None) or getattr(base, 'back')
+                old = Policy('u', actions=['get', 'del'], subjects=['s', 't'], resources=['r'], description='old')
+                other = Policy('o', actions=['x'], subjects=['y'], resources=['<a|b>'], effect='deny', description='other')
+                new = Policy('u', actions=['put'], subjects=['s2', '<a|b>'], resources=['r2', 'r3'], effect='deny',
+                             description='new')
+                fresh = Policy('n', actions=['a', 'b'], subjects=['c'], resources=['d', 'e'], description='n')
+                later = Policy('z', actions=['x'], subjects=['y'], resources=['w'], description='later')
+                st.add(old)
+                st.add(other)
+                arg = {'add': fresh, 'update': new, 'delete': 'u'}[op]
+
+                def view():
+                    try:
+                        got = sorted((p.uid, content_key(p)) for p in capped(st.retrieve_all(2)))
+                        one = [(u, None if q is None else content_key(q)) for u in ('u', 'o', 'n', 'z') for q in [st.get(u)]]
+                        page = sorted((p.uid, content_key(p)) for p in capped(st.get_all(10, 0)))
+                        return repr((got, one, page))
+                    except Exception as e:
+                        return 'unreadable: %s' % type(e).__name__
+                before = view()
+                count, armed = [0], [True]
+
+                def on_exec(conn, cursor, statement, parameters, context, executemany, count=count, armed=armed, k=k):
+                    if armed[0]:
+                        count[0] += 1
+                        if count[0] == k:
+                            raise sqlite3.OperationalError('disk I/O error (injected at statement %d)' % k)
+                event.listen(base._engine, 'before_cursor_execute', on_exec)
+                try:
+                    getattr(st, op)(arg)
+                    outcome = 'returned'
+                except Exception as e:
+                    outcome = 'raised %s' % type(e).__name__
+                armed[0] = False
+                if total is None:
+                    total = max(count[0], 1) if outcome == 'returned' else 12
+                if outcome == 'returned':
+                    if total == 12:
+                        total = count[0]
+                    continue
+                out.evaluations += 1
+                out.count('sql-statement-fault:%s:%s' % (kind, op))
+                after = view()
+                if after.startswith('unreadable: PendingRollbackError'):
+                    # the session itself reports that the failed flush has to be rolled back before it is used again:
+                    # the application that owns the session does so (the same convention as in C15's fault stream)
+                    base.session.rollback()
+                    out.count('sql-statement-fault:session-demanded-rollback')
+                    after = view()
+                desc = {'backend': kind, 'scenario': 'statement %d sent by %s() fails' % (k, op), 'outcome': outcome}
+                prob = None
+                if after != before:
+                    prob = '%s() raised, but the storage now reads differently' % op
+                    desc.update(read_before=before, read_after=after)
+                else:
+                    try:
+                        st.add(later)
+                        st.delete('z')
+                    except Exception as e:
+                        desc['later'] = 'raised %s' % type(e).__name__
+                    after2 = view()
+                    if after2 != before:
+                        prob = ('%s() raised and changed nothing at first, but after a later add() and delete() of another '
+                                'policy the storage reads differently' % op)
+                        desc.update(read_before=before, read_after_later_mutation=after2)
+                if prob:
+                    f = Failure('oracle', desc, outcome, None, prob, 'Vakt.C08.failed_mutation_noop', size=k)
+                    f.signature = 'sql-statement-fault:' + op
+                    out.failures.append(f)
+                    break
 
 
 def _large_collections(ctx, out, rng):
